@@ -61,8 +61,10 @@ SECTS = [
     ('\\mbox{for } -y,', [('t', 'for '), ('m', '-', True, ',')]),
     ('t \\mbox{ or } = o', [('m', None, True, ''), ('t', ' or '), ('m', '=', True, '')]),
     ('\\text{ for } z,', [('t', ' for '), ('m', None, True, ',')]),      # needs amsmath
+    ('= f. \\tag{1}', [('m', '=', True, '.')]),                          # amsmath
+    ('g, \\tag*{$\\ast$}', [('m', None, True, ',')]),                    # amsmath
 ]
-NSYM = len(SECTS) - 1        # the last kind is used in fixed documents only
+NSYM = 24        # the kinds from here on need amsmath: used in fixed documents only
 
 ENVS = [('equation', None), ('displaymath', None), ('eqnarray', None), ('eqnarray*', None),
         ('align', 'amsmath'), ('align*', 'amsmath'), ('gather', 'amsmath'),
@@ -257,6 +259,8 @@ OFFDOCS = {
     'eqnarray': ('eqnarray', None, [[0, 10, 0], [7, 18, 13]], 'de', False),
     'bracket_text': ('BRACKET', None, [[8]], 'en', False),
     'simple': ('align', 'amsmath', [[0, 1], [0, 5]], 'ru', True),
+    'tag': ('align', 'amsmath', [[0, 25], [26]], 'en', False),
+    'tag_simple': ('equation', 'amsmath', [[26]], 'de', True),
     'gather3': ('gather', 'amsmath', [[6], [14], [16]], 'en', False),
 }
 
